@@ -101,6 +101,18 @@ func DamageJSON(t *tape.Tape, data []byte) (out []byte, desc []string, kinds []s
 					a = short[t.Intn("jd.shortslot", len(short))]
 				}
 			}
+			if t.Chance("jd.number", 1, 3) {
+				// numbers (positions, lengths, occurrence bounds, indices) are few among the stored values: aim at them
+				var nums []jsonSlot
+				for _, sl := range slots {
+					if _, ok := get(sl).(float64); ok {
+						nums = append(nums, sl)
+					}
+				}
+				if len(nums) > 0 {
+					a = nums[t.Intn("jd.numslot", len(nums))]
+				}
+			}
 			switch get(a).(type) {
 			case string:
 				weird := []string{"", "*", ".", "..", "../..", "[", "(?", "\\", "//*", "0", "-1", " ", "a|b", "FINAL_OUTPUT", "int", "javascript",
@@ -115,7 +127,9 @@ func DamageJSON(t *tape.Tape, data []byte) (out []byte, desc []string, kinds []s
 				desc = append(desc, fmt.Sprintf("%s := %q", a.path, v))
 				kinds = append(kinds, "json-string-replaced")
 			case float64:
-				nums := []float64{0, -1, 1, 2, 3, 1 << 31, 1e18, 0.5}
+				// boundary numbers; integers are stored as int64 so that they are written without an exponent
+				nums := []interface{}{int64(0), int64(-1), int64(1), int64(2), int64(3), int64(1) << 31, int64(1)<<31 - 1, int64(1) << 32,
+					int64(1) << 62, int64(9223372036854775807), int64(9223372036854775806), int64(-9223372036854775808), 0.5, 1e18}
 				v := nums[t.Intn("jd.num", len(nums))]
 				set(a, v)
 				desc = append(desc, fmt.Sprintf("%s := %v", a.path, v))
